@@ -23,12 +23,13 @@ use std::io::Write;
 
 pub struct C20;
 
-/// A full-size header: 16 + 65535 bytes. A writer that holds less than this is certainly "below
-/// its size limit" (a limit smaller than that could not hold a maximal header), whatever the
-/// size of the value that is written next. A value is judged when the writer is below a
-/// full-size header throughout its write, i.e. also when the last of the parts it is written
+/// A maximal payload: 65535 bytes. A writer that holds less than this is certainly "below its
+/// size limit" under every reading (a limit smaller than that could not even hold a maximal
+/// payload, let alone a maximal header of 16 + 65535 bytes), whatever the size of the value that
+/// is written next. A value is judged when the writer is below a
+/// maximal payload throughout its write, i.e. also when the last of the parts it is written
 /// in begins (the crate writes addresses and TLVs field by field); otherwise it is not judged.
-const SAFE_TOTAL: usize = 16 + 65535;
+const SAFE_TOTAL: usize = 65535;
 
 /// Length of the last part a value is written in (its whole encoding for single-part values).
 fn last_part_len(p: &Payload, enc_len: usize) -> usize {
@@ -510,7 +511,7 @@ impl Check for C20 {
         ]
     }
     fn rule(&self) -> String {
-        "one run = one writer history: two Writers (empty, or pre-filled through Writer::from / io::Write::write_all with 0..65552 bytes) receive up to 10 seeded write_to calls of every encodable kind (integers of every width and sign, byte slice, Addresses of each family, TypeLengthValue borrowed and owned, (u8, &[u8]) and (Type, &[u8]) pairs, TypeLengthValues whole and advanced, Type), by value and through the &T impl, each directed to one of the two writers; directed families put an oversized value (65536..131072 value bytes) at a seeded point of the history, the largest legal values (65535) and writers that end just below / at / above a full-size header. After every write into a writer that holds less than 16 + 65535 bytes (also at the moment the last of the value's parts is written; the write itself may end above that): result Ok(n) with n = length of the specification encoding, the writer holds the previous contents followed by that encoding (compared after every operation, or only at the end of the history, drawn per run) and to_bytes() gives the same bytes; an oversized value must be refused by write_to and to_bytes with the writer unchanged; a TLV, its owned copy and the equivalent pair encode identically. Writes into a writer that is not below a full-size header are not judged (the model is re-synchronised from the writer). Distinct by (operation-kind sequence, family).".into()
+        "one run = one writer history: two Writers (empty, or pre-filled through Writer::from / io::Write::write_all with 0..65552 bytes) receive up to 10 seeded write_to calls of every encodable kind (integers of every width and sign, byte slice, Addresses of each family, TypeLengthValue borrowed and owned, (u8, &[u8]) and (Type, &[u8]) pairs, TypeLengthValues whole and advanced, Type), by value and through the &T impl, each directed to one of the two writers; directed families put an oversized value (65536..131072 value bytes) at a seeded point of the history, the largest legal values (65535) and writers that end just below / at / above a full-size header. After every write into a writer that holds less than 65535 bytes (also at the moment the last of the value's parts is written; the write itself may end above that): result Ok(n) with n = length of the specification encoding, the writer holds the previous contents followed by that encoding (compared after every operation, or only at the end of the history, drawn per run) and to_bytes() gives the same bytes; an oversized value must be refused by write_to and to_bytes with the writer unchanged; a TLV, its owned copy and the equivalent pair encode identically. Writes into a writer that is not below a full-size header are not judged (the model is re-synchronised from the writer). Distinct by (operation-kind sequence, family).".into()
     }
     fn real_vs_stub(&self) -> serde_json::Value {
         json!({
@@ -521,7 +522,7 @@ impl Check for C20 {
     }
     fn assumptions(&self) -> Vec<String> {
         vec![
-            "a writer that holds less than 16 + 65535 bytes is below its size limit (a smaller limit could not hold a maximal header); a value is judged when that is so throughout its write, i.e. also when the last of its parts begins; other writes are not judged".into(),
+            "a writer that holds less than 65535 bytes is below its size limit (a smaller limit could not hold a maximal payload); a value is judged when that is so throughout its write, i.e. also when the last of its parts begins; other writes are not judged".into(),
             "a TypeLengthValues section above 65535 bytes is not judged (it has no 16-bit length of its own and the property names byte slices of at most 65535 bytes)".into(),
             "the writers' contents are observed through finish() / Writer::from(), the only public way to look into a Writer".into(),
         ]
